@@ -73,6 +73,13 @@ where
     /// Creates a new `MerkleTree`
     /// depth - the height of the tree made only of hash nodes. 2^depth is the maximum number of leaves hash nodes
     fn new(depth: usize, default_leaf: H::Fr, _config: Self::Config) -> Result<Self> {
+        #[cfg(zerokit_verif)]
+        if let Some(sc) = crate::verif_trace::enter() {
+            let r = Self::new(depth, default_leaf, _config);
+            let init = crate::verif_trace::q(&default_leaf);
+            sc.finish_new("optimal", r.as_ref().ok().map(|t| (t, t.verif_id())), depth, init);
+            return r;
+        }
         let mut cached_nodes: Vec<H::Fr> = Vec::with_capacity(depth + 1);
         cached_nodes.push(default_leaf);
         for i in 0..depth {
@@ -131,6 +138,14 @@ where
 
     // Sets a leaf at the specified tree index
     fn set(&mut self, index: usize, leaf: H::Fr) -> Result<()> {
+        #[cfg(zerokit_verif)]
+        if let Some(sc) = crate::verif_trace::enter() {
+            let args = format!("\"i\":{},\"v\":{}", index, crate::verif_trace::q(&leaf));
+            let sc = sc.call::<Self>(self.verif_id(), "optimal", "set", args);
+            let r = self.set(index, leaf);
+            sc.finish(self, r.is_ok(), &[index]);
+            return r;
+        }
         if index >= self.capacity() {
             return Err(Report::msg("index exceeds set size"));
         }
@@ -165,6 +180,16 @@ where
         start: usize,
         leaves: I,
     ) -> Result<()> {
+        #[cfg(zerokit_verif)]
+        if let Some(sc) = crate::verif_trace::enter() {
+            let vs = leaves.collect::<Vec<_>>();
+            let args = format!("\"s\":{},\"vs\":{}", start, crate::verif_trace::q_list(&vs));
+            let sc = sc.call::<Self>(self.verif_id(), "optimal", "range", args);
+            let touched = (start..start.saturating_add(vs.len())).collect::<Vec<_>>();
+            let r = self.set_range(start, vs.into_iter());
+            sc.finish(self, r.is_ok(), &touched);
+            return r;
+        }
         // check if the range is valid
         let leaves_len = leaves.len();
         if start + leaves_len > self.capacity() {
@@ -188,6 +213,23 @@ where
         I: ExactSizeIterator<Item = FrOf<Self::Hasher>>,
         J: ExactSizeIterator<Item = usize>,
     {
+        #[cfg(zerokit_verif)]
+        if let Some(sc) = crate::verif_trace::enter() {
+            let vs = leaves.collect::<Vec<_>>();
+            let rem = indices.collect::<Vec<_>>();
+            let args = format!(
+                "\"s\":{},\"vs\":{},\"rem\":{}",
+                start,
+                crate::verif_trace::q_list(&vs),
+                crate::verif_trace::n_list(&rem)
+            );
+            let sc = sc.call::<Self>(self.verif_id(), "optimal", "override", args);
+            let mut touched = (start..start.saturating_add(vs.len())).collect::<Vec<_>>();
+            touched.extend(rem.iter().copied());
+            let r = self.override_range(start, vs.into_iter(), rem.into_iter());
+            sc.finish(self, r.is_ok(), &touched);
+            return r;
+        }
         let indices = indices.into_iter().collect::<Vec<_>>();
         let leaves_vec = leaves.into_iter().collect::<Vec<_>>();
 
@@ -211,12 +253,28 @@ where
 
     // Sets a leaf at the next available index
     fn update_next(&mut self, leaf: H::Fr) -> Result<()> {
+        #[cfg(zerokit_verif)]
+        if let Some(sc) = crate::verif_trace::enter() {
+            let args = format!("\"v\":{}", crate::verif_trace::q(&leaf));
+            let sc = sc.call::<Self>(self.verif_id(), "optimal", "append", args);
+            let at = self.leaves_set();
+            let r = self.update_next(leaf);
+            sc.finish(self, r.is_ok(), &[at]);
+            return r;
+        }
         self.set(self.next_index, leaf)?;
         Ok(())
     }
 
     // Deletes a leaf at a certain index by setting it to its default value (next_index is not updated)
     fn delete(&mut self, index: usize) -> Result<()> {
+        #[cfg(zerokit_verif)]
+        if let Some(sc) = crate::verif_trace::enter() {
+            let sc = sc.call::<Self>(self.verif_id(), "optimal", "delete", format!("\"i\":{}", index));
+            let r = self.delete(index);
+            sc.finish(self, r.is_ok(), &[index]);
+            return r;
+        }
         // We reset the leaf only if we previously set a leaf at that index
         if index < self.next_index {
             self.set(index, H::default_leaf())?;
@@ -396,5 +454,20 @@ where
 {
     fn fmt(&self, f: &mut std::fmt::Formatter<'_>) -> std::fmt::Result {
         f.debug_tuple("Proof").field(&self.0).finish()
+    }
+}
+
+/// Verification hook H2 (compiled only with `--cfg zerokit_verif`): instance identity and drop event
+#[cfg(zerokit_verif)]
+impl<H: Hasher> OptimalMerkleTree<H> {
+    fn verif_id(&self) -> usize {
+        self.cached_leaves_indices.as_ptr() as usize
+    }
+}
+
+#[cfg(zerokit_verif)]
+impl<H: Hasher> Drop for OptimalMerkleTree<H> {
+    fn drop(&mut self) {
+        crate::verif_trace::dropped(self.verif_id(), "optimal");
     }
 }
